@@ -310,3 +310,78 @@ pub fn run(op: &str, v: &Value) -> Value {
         _ => unreachable!(),
     }
 }
+
+/// {"wit": text, "world": name}: build a real component for the world (dummy core module), load it with Package::from_bytes and
+/// describe the converted world: imports / exports with kinds, function signatures, interface ids, `use` tables, resource aliases
+pub fn package_from_wit(v: &Value) -> Value {
+    use wit_component::{ComponentEncoder, StringEncoding};
+    let wit = v["wit"].as_str().unwrap();
+    let world_name = v["world"].as_str().unwrap_or("w");
+    let mut resolve = wit_parser::Resolve::default();
+    let id = match resolve.push_str("test.wit", wit) {
+        Ok(id) => id,
+        Err(e) => return json!({"wit_error": format!("{e:#}")}),
+    };
+    let world = match resolve.select_world(&[id], Some(world_name)) {
+        Ok(w) => w,
+        Err(e) => return json!({"wit_error": format!("{e:#}")}),
+    };
+    let mut module = wit_component::dummy_module(&resolve, world, wit_parser::ManglingAndAbi::Legacy(wit_parser::LiftLowerAbi::Sync));
+    if let Err(e) = wit_component::embed_component_metadata(&mut module, &resolve, world, StringEncoding::default()) {
+        return json!({"wit_error": format!("{e:#}")});
+    }
+    let bytes = match ComponentEncoder::default().validate(true).module(&module).and_then(|mut e| e.encode()) {
+        Ok(b) => b,
+        Err(e) => return json!({"wit_error": format!("{e:#}")}),
+    };
+    let mut types = Types::default();
+    let pkg = match Package::from_bytes("test:pkg", None, bytes, &mut types) {
+        Ok(p) => p,
+        Err(e) => return json!({"error": format!("{e:#}")}),
+    };
+    let w = &types[pkg.ty()];
+    json!({"imports": w.imports.iter().map(|(n, k)| json!([n, describe_item(&types, *k, 0)])).collect::<Vec<_>>(),
+           "exports": w.exports.iter().map(|(n, k)| json!([n, describe_item(&types, *k, 0)])).collect::<Vec<_>>()})
+}
+
+fn describe_vt(t: &Types, v: ValueType) -> String {
+    match v {
+        ValueType::Primitive(p) => format!("{p:?}").to_lowercase(),
+        ValueType::Borrow(r) => format!("borrow<{}>", t[r].name),
+        ValueType::Own(r) => format!("own<{}>", t[r].name),
+        ValueType::Defined(id) => match &t[id] {
+            DefinedType::Tuple(ts) => format!("tuple<{}>", ts.iter().map(|x| describe_vt(t, *x)).collect::<Vec<_>>().join(",")),
+            DefinedType::List(x) => format!("list<{}>", describe_vt(t, *x)),
+            DefinedType::Option(x) => format!("option<{}>", describe_vt(t, *x)),
+            DefinedType::Result { ok, err } => format!("result<{},{}>", ok.map(|x| describe_vt(t, x)).unwrap_or("_".into()), err.map(|x| describe_vt(t, x)).unwrap_or("_".into())),
+            DefinedType::Record(r) => format!("record{{{}}}", r.fields.iter().map(|(n, x)| format!("{n}:{}", describe_vt(t, *x))).collect::<Vec<_>>().join(",")),
+            DefinedType::Variant(r) => format!("variant{{{}}}", r.cases.iter().map(|(n, x)| format!("{n}:{}", x.map(|x| describe_vt(t, x)).unwrap_or("_".into()))).collect::<Vec<_>>().join(",")),
+            DefinedType::Flags(f) => format!("flags{{{}}}", f.0.iter().cloned().collect::<Vec<_>>().join(",")),
+            DefinedType::Enum(f) => format!("enum{{{}}}", f.0.iter().cloned().collect::<Vec<_>>().join(",")),
+            DefinedType::Alias(x) => format!("alias<{}>", describe_vt(t, *x)),
+            other => format!("{other:?}"),
+        },
+    }
+}
+
+fn describe_item(t: &Types, k: ItemKind, depth: usize) -> Value {
+    if depth > 3 {
+        return json!("...");
+    }
+    match k {
+        ItemKind::Func(id) => {
+            let f = &t[id];
+            json!({"func": {"params": f.params.iter().map(|(n, x)| json!([n, describe_vt(t, *x)])).collect::<Vec<_>>(), "result": f.result.map(|x| describe_vt(t, x)), "async": f.is_async}})
+        }
+        ItemKind::Instance(id) => {
+            let i = &t[id];
+            json!({"instance": {"id": i.id, "uses": i.uses.iter().map(|(n, u)| json!([n, t[u.interface].id, u.name])).collect::<Vec<_>>(),
+                                "exports": i.exports.iter().map(|(n, k)| json!([n, describe_item(t, *k, depth + 1)])).collect::<Vec<_>>()}})
+        }
+        ItemKind::Type(Type::Resource(r)) => json!({"resource": {"name": t[r].name, "alias_of": t[r].alias.map(|a| t[a.source].name.clone()), "alias_owner": t[r].alias.and_then(|a| a.owner).map(|o| t[o].id.clone())}}),
+        ItemKind::Type(Type::Value(v)) => json!({"type": describe_vt(t, v)}),
+        ItemKind::Type(other) => json!({"type": format!("{other:?}")}),
+        ItemKind::Value(v) => json!({"value": describe_vt(t, v)}),
+        other => json!(format!("{other:?}")),
+    }
+}
